@@ -542,6 +542,25 @@ class TopoART(BaseART):
 
             return resonant_c
 
+    def step_pred(self, x) -> int:
+        """Predict the label for a single sample.
+
+        Parameters
+        ----------
+        x : np.ndarray
+            Data sample.
+
+        Returns
+        -------
+        int
+            Cluster label of the input sample, or -1 when pruning has removed
+            every cluster (the label prune gives to orphaned samples).
+
+        """
+        if len(self.W) == 0:
+            return -1
+        return super().step_pred(x)
+
     def get_cluster_centers(self) -> List[np.ndarray]:
         """Get the centers of each cluster.
 
